@@ -2,13 +2,13 @@
 # usage: mut.sh <id> <extra link flags> -- checks...
 p=$1; shift; lf=$1; shift
 cd /verif/seeded/$p
-g++ -std=gnu++20 -w -I/repo/include demo.cpp -o /tmp/demo_$p $lf 2>/tmp/demo_$p.err; /tmp/demo_$p >/dev/null 2>&1; echo "$p demo clean rc=$?"
+g++ -std=gnu++20 -w -I/repo/include demo.cpp -o /verif/.cache/demo_$p $lf 2>/verif/.cache/demo_$p.err; /verif/.cache/demo_$p >/dev/null 2>&1; echo "$p demo clean rc=$?"
 git -C /repo apply /verif/seeded/$p/patch.diff
-g++ -std=gnu++20 -w -I/repo/include demo.cpp -o /tmp/demo_$p $lf 2>/tmp/demo_$p.err; /tmp/demo_$p >/dev/null 2>&1; echo "$p demo mutant rc=$?"
+g++ -std=gnu++20 -w -I/repo/include demo.cpp -o /verif/.cache/demo_$p $lf 2>/verif/.cache/demo_$p.err; /verif/.cache/demo_$p >/dev/null 2>&1; echo "$p demo mutant rc=$?"
 cd /verif
 for c in "$@"; do
   out=$(./check $c --tier quick 2>&1); rc=$?
   echo "$p check $c rc=$rc $(echo "$out" | grep -E 'VIOLATION' | cut -c1-200 | tr '\n' ';') $(echo "$out" | tail -1)"
 done
 git -C /repo checkout -- .
-rm -f /tmp/demo_$p
+rm -f /verif/.cache/demo_$p
